@@ -91,6 +91,9 @@ impl<R: BufRead> LiteralDataReader<R> {
     }
 
     fn fill_inner(&mut self) -> io::Result<()> {
+        if matches!(self, Self::Error) {
+            return Err(io::Error::other("LiteralDataReader errored"));
+        }
         if self.is_done() {
             return Ok(());
         }
